@@ -62,6 +62,28 @@ def make_arch(layers, kinds, str_form):
 def make_rule(arch, cfg, str_form):
     from pytestarch import LayerRule
 
+    if cfg.get("style") in ("statements", "restarted"):
+        # the rule written as statements on ONE name, whatever the builder methods return being ignored; 'restarted': the
+        # same object first carried another rule (all of it) and is started over with layers_that()
+        lr = LayerRule()
+        lr.based_on(arch)
+        if cfg["style"] == "restarted":
+            lr.layers_that()
+            lr.are_named(cfg["objects"][0] if cfg.get("objects") else cfg["subject"])
+            lr.should_not()
+            lr.access_any_layer()
+            HUB.acc.count("layer_rule_objects_started_over_with_layers_that")
+        lr.layers_that()
+        lr.are_named(cfg["subject"])
+        getattr(lr, cfg["verb"])()
+        if cfg.get("anything"):
+            (lr.access_any_layer if cfg["dir"] == "import" else lr.be_accessed_by_any_layer)()
+            return lr
+        getattr(lr, ACC[(cfg["dir"], cfg["exc"])])()
+        objs = cfg["objects"]
+        lr.are_named(objs[0] if len(objs) == 1 and str_form else list(objs))
+        HUB.acc.count("layer_rules_written_as_statements_on_one_name")
+        return lr
     r = LayerRule().based_on(arch).layers_that().are_named(cfg["subject"])
     r = getattr(r, cfg["verb"])()
     if cfg.get("anything"):
@@ -316,6 +338,8 @@ def run_shard(spec, acc):
         spare = [n for n in layers if n != subject and n not in objects] if not anything else []
         if spare and rnd.random() < 0.15:
             cfg["stumble"] = rnd.choice(spare)
+        elif rnd.random() < 0.12:
+            cfg["style"] = rnd.choice(["statements", "restarted"])
         case = {"kind": "layer", "mods": mods, "imps": imps, "layers": layers, "kinds": kinds, "cfg": cfg, "str_form": rnd.random() < 0.5}
         one_case(case, acc)
         if i % 6 == 1:
